@@ -261,7 +261,7 @@ def groups(tier):
     gs = []
     n2 = len(e2e.tables(2))
     opts = ["plain", "inferral", "finite"] if tier == "quick" else ["plain", "inferral", "finite", "symmetry", "factory2", "k", "finite-ev"]
-    quick_combos = {("base", "plain"), ("base", "inferral"), ("forget", "inferral"), ("forest", "plain"), ("forest", "finite")}
+    quick_combos = {("base", "plain"), ("base", "inferral"), ("forget", "inferral"), ("forest", "plain")}
     for db in ("base", "forget", "forest"):
         for opt in opts:
             for lo in range(0, n2, 16):
@@ -293,8 +293,8 @@ def meta(tier):
     m.update({
         "functions": [CSS.auto_search, CSS._auto_search_rules, CSS._expand_classes_for, CSS.do_level, CSS.__eq__, DefaultQueue.__eq__,
                       ClassDB.__eq__, RuleDBBase.__eq__, EquivalenceDB.__eq__, RuleDBBase.pruned_dict.fget],
-        "bounds": {"quick": "64 two-state tables x 5 (database, pack) combinations (default: plain/inferral, memory-saving: inferral, forest: "
-                            "plain/finite); one late clock reading at every reading position of the run "
+        "bounds": {"quick": "64 two-state tables x 4 (database, pack) combinations (default: plain/inferral, memory-saving: inferral, forest: "
+                            "plain); one late clock reading at every reading position of the run "
                             "(time limit strikes after every reachable work packet); pickle at the interruption and after 0..3 levels",
                    "thorough": "7 packs, plus two interruptions (two late readings) for the plain pack"}[tier],
     })
